@@ -424,6 +424,12 @@ func c09(c *Ctx) {
 				}
 			}
 			res := e.run(b, next(), bind)
+			if b.expect == "success" && res.err != "" && !res.hung {
+				// timing verdict: a must-succeed call that failed is confirmed by a second attempt (a loaded host can
+				// delay the farm's or the client's goroutine past the margin); a deterministic defect fails again
+				c.Res.Count("sequential:retried-after-failure", 1)
+				res = e.run(b, next(), bind)
+			}
 			res.fixed = fixed
 			// the socket the call opened must be closed when it returns
 			s, sd := librarySockets(bindHex, listenHex)
@@ -485,18 +491,30 @@ func c09(c *Ctx) {
 			}
 			kinds = append(kinds, []behaviour{{"reply-0.7T", "udp", "success", 0, false}, {"reply-0.7T", "broadcast", "success", 0, false}, {"prompt", "udp", "success", 0, false}}[r.Pick(3)])
 			results := make([]c09Result, k)
-			var wg sync.WaitGroup
-			for i := 0; i < k; i++ {
-				wg.Add(1)
-				s := next()
-				go func(i int, s uint32) {
-					defer wg.Done()
-					time.Sleep(time.Duration(i) * 8 * time.Millisecond)
-					results[i] = e.run(kinds[i], s, bind)
-					results[i].fixed = true
-				}(i, s)
+			for attempt := 0; attempt < 2; attempt++ {
+				var wg sync.WaitGroup
+				for i := 0; i < k; i++ {
+					wg.Add(1)
+					s := next()
+					go func(i int, s uint32) {
+						defer wg.Done()
+						time.Sleep(time.Duration(i) * 8 * time.Millisecond)
+						results[i] = e.run(kinds[i], s, bind)
+						results[i].fixed = true
+					}(i, s)
+				}
+				wg.Wait()
+				failed := false
+				for i := range results {
+					if kinds[i].expect == "success" && results[i].err != "" && !results[i].hung {
+						failed = true
+					}
+				}
+				if !failed {
+					break
+				}
+				c.Res.Count("port-queue:round-repeated-after-failure", 1) // confirm a timing verdict by a second attempt
 			}
-			wg.Wait()
 			for i := range results {
 				caseNo++
 				pos := k - 1
